@@ -1073,10 +1073,11 @@ func (val Value) HasElement(elem Value) Value {
 		return unknownResult
 	}
 	noMatchResult := False
-	if !val.IsWhollyKnown() {
-		// If the set has any unknown elements then a failure to find a
-		// known-value elem in it means that we don't know whether the
-		// element is present, rather than that it definitely isn't.
+	if !val.IsWhollyKnown() || !elem.IsWhollyKnown() {
+		// If the set has any unknown elements, or the given element
+		// contains unknown values, then a failure to find a match means
+		// that we don't know whether the element is present, rather than
+		// that it definitely isn't.
 		noMatchResult = unknownResult
 	}
 	if !ty.ElementType().Equals(elem.Type()) {
